@@ -3,11 +3,12 @@
   `<cmd> <arg>...` (strings hex-encoded UTF-8, `-` = empty); one reply per line.
 -/
 import FsModel.PathDriver
+import FsModel.RefDriver
 
 open Fs
 
 def handlers : List (String → List String → Option String) :=
-  [ PathDriver.handle ]
+  [ PathDriver.handle, RefDriver.handle ]
 
 def dispatch (line : String) : String :=
   match (line.trimAscii.toString.splitOn " ").filter (· ≠ "") with
